@@ -236,6 +236,32 @@ namespace hv
         }
     }  // namespace
 
+    // candidate sites of the sweep: address (stable: ASLR is off), thread, number of entries, and - where the dynamic symbol
+    // table knows it - the enclosing function, so that a report can say where the pre-emption was
+    std::string profiled_sites_json()
+    {
+        std::string js = "[";
+        bool first = true;
+        for (auto &si : sim::profiled_sites())
+        {
+            if (!first) js += ",";
+            first = false;
+            char buf[64];
+            std::snprintf(buf, sizeof buf, "%llx", si.site);
+            Dl_info di{};
+            std::string sym;
+            if (dladdr(reinterpret_cast<void *>(static_cast<uintptr_t>(si.site)), &di) && di.dli_sname != nullptr)
+            {
+                sym = di.dli_sname;
+                char off[32];
+                std::snprintf(off, sizeof off, "+%llx", static_cast<unsigned long long>(si.site - reinterpret_cast<uintptr_t>(di.dli_saddr)));
+                sym += off;
+            }
+            js += "[\"" + std::string(buf) + "\"," + std::to_string(si.thread) + "," + std::to_string(si.entries) + ",\"" + sym + "\"]";
+        }
+        return js + "]";
+    }
+
     int run_threads(const Scenario &sc)
     {
         g_tsc = &sc;
@@ -400,32 +426,7 @@ namespace hv
             for (long long x : sim::tape_record()) { if (!tp.empty()) tp += ","; tp += std::to_string(x); }
             Line("tape").i("n", static_cast<long long>(sim::tape_record().size())).str("v", tp).emit();
         }
-        if (cfg.instr_profile)
-        {
-            // candidate sites of the sweep: address (stable: ASLR is off), thread, number of entries, and - where the dynamic
-            // symbol table knows it - the enclosing function, so that a report can say where the pre-emption was
-            std::string js = "[";
-            bool first = true;
-            for (auto &si : sim::profiled_sites())
-            {
-                if (!first) js += ",";
-                first = false;
-                char buf[64];
-                std::snprintf(buf, sizeof buf, "%llx", si.site);
-                Dl_info di{};
-                std::string sym;
-                if (dladdr(reinterpret_cast<void *>(static_cast<uintptr_t>(si.site)), &di) && di.dli_sname != nullptr)
-                {
-                    sym = di.dli_sname;
-                    char off[32];
-                    std::snprintf(off, sizeof off, "+%llx", static_cast<unsigned long long>(si.site - reinterpret_cast<uintptr_t>(di.dli_saddr)));
-                    sym += off;
-                }
-                js += "[\"" + std::string(buf) + "\"," + std::to_string(si.thread) + "," + std::to_string(si.entries) + ",\"" + sym + "\"]";
-            }
-            js += "]";
-            Line("sites").raw("v", js).emit();
-        }
+        if (cfg.instr_profile) Line("sites").raw("v", profiled_sites_json()).emit();
         Line("end").str("run", "done").i("steps", s.steps).i("preemptions", s.preemptions).i("clock_jumps", s.clock_jumps).i("forced_timeouts", s.forced_timeouts)
             .i("spurious", s.spurious).i("stalls", s.stalls).i("late", s.late).i("starved", s.starved).i("mutex_blocks", s.mutex_blocks)
             .i("cond_waits", s.cond_waits).i("timed_waits", s.timed_waits).i("notifies", s.notifies).i("instr_points", s.instr_points).i("sim_elapsed_us", sim::now_us() - g_start_wall)
